@@ -211,16 +211,27 @@ func C19(c Ctx) *report.Report {
 			}
 			m := stakingtypes.NewMsgDelegate(user.Addr, va, sdk.NewCoin(bond, sdk.NewIntFromBigInt(x)))
 			return m, anteNode{URL: sdk.MsgTypeURL(m), Kind: 3, Found: found, A: vt, B: x}
-		default: // redelegate from validator 0 to a small one
+		default: // redelegate from validator 5 to validator 3 or 4
 			vi := 3 + rng.Intn(3)
 			vt, tot := valTokens(vi), total()
+			vi = 3 + rng.Intn(2)
+			vt = valTokens(vi)
 			x := new(big.Int).Sub(new(big.Int).Div(new(big.Int).Mul(tot, big.NewInt(66)), big.NewInt(1000)), vt)
-			x.Add(x, new(big.Int).Mul(big.NewInt(int64(rng.Intn(5)-2)), bigE(int64(rng.Intn(19)))))
+			if rng.Intn(2) == 0 {
+				// inside the band between the redelegation boundary (v+x)/T = 6.6% and the delegation boundary
+				// (v+x)/(T+x) = 6.6%: x + t (x/0.934 - x), t in {0, 1/1000 .. 999/1000}
+				hi := new(big.Int).Div(new(big.Int).Mul(x, big.NewInt(1000)), big.NewInt(934))
+				w := new(big.Int).Sub(hi, x)
+				t := int64([]int{0, 1, 500, 999, rng.Intn(1000)}[rng.Intn(5)])
+				x.Add(x, new(big.Int).Div(new(big.Int).Mul(w, big.NewInt(t)), big.NewInt(1000)))
+			} else {
+				x.Add(x, new(big.Int).Mul(big.NewInt(int64(rng.Intn(5)-2)), bigE(int64(rng.Intn(19)))))
+			}
 			if x.Sign() <= 0 {
 				x = big.NewInt(1)
 			}
 			same := rng.Intn(8) == 0
-			src := e.ValAddr(0)
+			src := e.ValAddr(5)
 			if same {
 				src = e.ValAddr(vi)
 			}
@@ -236,9 +247,10 @@ func C19(c Ctx) *report.Report {
 		ex := authz.NewMsgExec(user.Addr, []sdk.Msg{m})
 		return wrap(depth-1, &ex, anteNode{Exec: true, Inner: []anteNode{n}})
 	}
-	// user also delegates a bit to validator 0 so that redelegations have a source
-	d0 := stakingtypes.NewMsgDelegate(user.Addr, e.ValAddr(0), sdk.NewCoin(bond, sdk.NewIntFromBigInt(new(big.Int).Mul(big.NewInt(3), bigE(18)))))
-	e.Deliver(sdk.NewCoins(sdk.NewCoin("rowan", sdk.NewIntFromBigInt(chain.E(18)))), 5_000_000, []chain.Account{user}, d0)
+	// user also delegates to the small validator 5 so that redelegations have a source
+	// (validator 5 holds 2% of the stake; 4.4% more keeps it under the 6.6% limit)
+	d0 := stakingtypes.NewMsgDelegate(user.Addr, e.ValAddr(5), sdk.NewCoin(bond, sdk.NewIntFromBigInt(new(big.Int).Div(new(big.Int).Mul(total(), big.NewInt(44)), big.NewInt(1000)))))
+	mustOK(e.Deliver(sdk.NewCoins(sdk.NewCoin("rowan", sdk.NewIntFromBigInt(chain.E(18)))), 5_000_000, []chain.Account{user}, d0), "source delegation")
 	n := c.N(700, 20000)
 	for i := 0; i < n; i++ {
 		nm := 1 + rng.Intn(3)
